@@ -814,10 +814,26 @@ class Controller:
             logger.warning(f'!!! no connection for {sender_address}')
             return
 
-        # Send the data to the host
-        # TODO: should fragment
-        acl_packet = hci.HCI_AclDataPacket(connection.handle, 2, 0, len(data), data)
-        self.send_hci_packet(acl_packet)
+        # Send the data to the host, in fragments that fit the ACL data packet length
+        # of this controller (a single packet cannot carry more than 65535 bytes).
+        max_packet_size = self.acl_data_packet_length
+        if transport == PhysicalTransport.LE and self.le_acl_data_packet_length:
+            max_packet_size = self.le_acl_data_packet_length
+        for offset in range(0, len(data), max_packet_size):
+            fragment = data[offset : offset + max_packet_size]
+            self.send_hci_packet(
+                hci.HCI_AclDataPacket(
+                    connection_handle=connection.handle,
+                    pb_flag=(
+                        hci.HCI_ACL_PB_CONTINUATION
+                        if offset > 0
+                        else hci.HCI_ACL_PB_FIRST_FLUSHABLE
+                    ),
+                    bc_flag=0,
+                    data_total_length=len(fragment),
+                    data=fragment,
+                )
+            )
 
     def on_advertising_pdu(self, pdu: ll.AdvInd | ll.AdvExtInd) -> None:
         if isinstance(pdu, ll.AdvExtInd):
